@@ -10,6 +10,7 @@ it yet ("first fill"). Stacks without `Uninit` layers are always fresh (`slice_s
 -/
 import Compio.Lemmas.View
 import Compio.Lemmas.ViewVec
+import Compio.Lemmas.ViewOps
 
 namespace Compio.Props.C10
 open Compio Compio.View
@@ -258,6 +259,138 @@ theorem reader_delivers_in_order (v v' : Buf) (n : Nat) (d : Bytes) (h : readerR
           omega
         · cases h
   · cases h
+
+/-- the append law holds for the function the driver runs (`extendWith`, with or without a capacity answer)
+whenever no growth is needed … -/
+theorem extend_with_law (v : Buf) (hw : v.getRoot.WF) (hf : v.Fresh) (oi li o c : Nat)
+    (hi : v.asInit = .ok (oi, li)) (hu : v.asUninit = .ok (o, c)) (data : Bytes) (ans : Option Nat)
+    (hres : v.reserve data.length = .ok (some true)) (hk : li + data.length ≤ c) :
+    v.extendWith data ans = .done (v.setRoot (fillRoot (o + li) v.getRoot data)) := by
+  rw [Buf.extendWith_eq_extend hres]
+  obtain ⟨v', h1, h2⟩ := extend_law v hw hf oi li o c hi hu data hres hk
+  rw [h1, h2]
+
+/-- … and when the root has to grow it is the growth-free `extend` of the grown buffer (to which
+`extend_law` applies: same view stack, same initialised bytes, larger capacity) -/
+theorem extend_with_growth (v v1 : Buf) (hw : v.getRoot.WF) (data : Bytes) (ans : Option Nat) (out : ResOut)
+    (h : v.reserveWith data.length false ans = .done v1 out) :
+    v.extendWith data ans = v1.extend data ∧ v1.asInit = v.asInit ∧ v1.reserve data.length = .ok (some true) := by
+  refine ⟨Buf.extendWith_after_growth hw.le h, ?_, ?_⟩
+  · obtain ⟨_, r', hroot, rfl⟩ := Buf.reserveWith_done h
+    exact Buf.asInit_setRoot_mem v r' (Root.reserveWith_done hw.le hroot).2.1
+  · obtain ⟨hr, r', hroot, rfl⟩ := Buf.reserveWith_done h
+    obtain ⟨_, hl, _, _, hcap, _⟩ := Root.reserveWith_done hw.le hroot
+    rw [Buf.reserve_eq_reaches]
+    refine ⟨by rw [Buf.reserveReaches_setRoot]; exact hr, ?_⟩
+    simp only [Buf.getRoot_setRoot]
+    have := hcap (Root.reserveWith_nonexact hroot)
+    omega
+
+/-! ## 4c. The derived methods: `reserve`, `ensure_init`, `as_mut_slice`, `copy_within`, `is_filled` -/
+
+/-- **Reserve law** (`reserve` and `reserve_exact`, any view stack, any answer of the allocator): a call that
+returns `Ok` or `ExactSizeMismatch` leaves the view stack, the root's kind, its length and its initialised bytes
+as they are and never shrinks the capacity; after `Ok` the root has room for `additional` more bytes. Every other
+outcome (`NotSupported`, `ReserveFailed`, a request that is not issued) has no successor state at all. -/
+theorem reserve_law (v v' : Buf) (hw : v.getRoot.WF) (n : Nat) (exact : Bool) (ans : Option Nat) (out : ResOut)
+    (h : v.reserveWith n exact ans = .done v' out) :
+    v' = v.setRoot v'.getRoot ∧ v'.getRoot.kind = v.getRoot.kind ∧ v'.getRoot.len = v.getRoot.len ∧
+    v'.getRoot.mem.take v.getRoot.len = v.getRoot.mem.take v.getRoot.len ∧
+    v.getRoot.cap ≤ v'.getRoot.cap ∧ (out = .ok → v.getRoot.len + n ≤ v'.getRoot.cap) ∧
+    v'.getRoot.len ≤ v'.getRoot.cap ∧ v'.asInit = v.asInit := by
+  obtain ⟨_, r', hroot, rfl⟩ := Buf.reserveWith_done h
+  obtain ⟨hk, hl, hm, hc, ho, hle⟩ := Root.reserveWith_done hw.le hroot
+  simp only [Buf.getRoot_setRoot, Buf.setRoot_setRoot]
+  exact ⟨trivial, hk, hl, hm, hc, ho, hle, Buf.asInit_setRoot_mem v r' hl⟩
+
+/-- a fixed-size `Slice` (one with an end) refuses every `reserve`, also one that would fit -/
+theorem bounded_slice_refuses_reserve (i : Buf) (b e n : Nat) (exact : Bool) (ans : Option Nat) :
+    (Buf.slice i b (some e)).reserveWith n exact ans = .notSupported := by
+  simp [Buf.reserveWith, Buf.reserveReaches]
+
+/-- **`ensure_init`**: returns the whole writable region `(o, c)`; afterwards that region holds the old
+initialised prefix followed by zeros, every byte outside `o + li .. o + c` is untouched, and neither the root's
+length nor the view's ranges change (`set_len` is not called) -/
+theorem ensure_init_law (v v' : Buf) (p : Nat × Nat) (h : v.ensureInit = .ok (v', p)) :
+    ∃ oi li o c, v.asInit = .ok (oi, li) ∧ v.asUninit = .ok (o, c) ∧ p = (o, c) ∧ li ≤ c ∧
+      (v'.getRoot.mem.drop (o + li)).take (c - li) = List.replicate (c - li) 0 ∧
+      (∀ j, j < o + li ∨ o + c ≤ j → v'.getRoot.mem[j]? = v.getRoot.mem[j]?) ∧
+      v'.getRoot.len = v.getRoot.len ∧ v'.asInit = v.asInit ∧ v'.asUninit = v.asUninit := by
+  unfold Buf.ensureInit at h
+  cases hi : v.asInit with
+  | error f => simp [hi] at h
+  | ok pi =>
+    obtain ⟨oi, li⟩ := pi
+    simp only [hi] at h
+    cases hu : v.asUninit with
+    | error f => simp [hu] at h
+    | ok pu =>
+      obtain ⟨o, c⟩ := pu
+      simp only [hu] at h
+      split at h
+      · rename_i hle
+        cases h
+        have hin := (Buf.asUninit_inside hu).2
+        simp only [Root.cap] at hin
+        have hfit : o + li + (List.replicate (c - li) (0 : UInt8)).length ≤ v.getRoot.mem.length := by
+          simp only [List.length_replicate]; omega
+        refine ⟨oi, li, o, c, rfl, rfl, rfl, hle, ?_, ?_, by simp, ?_, ?_⟩
+        · have := splice_read v.getRoot.mem (o + li) (List.replicate (c - li) 0) hfit
+          simpa using this
+        · intro j hj
+          have := splice_other v.getRoot.mem (o + li) (List.replicate (c - li) 0) hfit j
+            (by simp only [List.length_replicate]; omega)
+          simpa using this
+        · rw [Buf.asInit_write]; exact hi
+        · rw [Buf.asUninit_write _ _ _ (by simp only [List.length_replicate, Root.cap]; omega)]; exact hu
+      · cases h
+
+/-- **`as_mut_slice`** of a fresh view is exactly its `as_init` range (same bytes, mutable) -/
+theorem as_mut_slice_is_as_init (v : Buf) (hw : v.getRoot.WF) (hf : v.Fresh) (oi li o c : Nat)
+    (hi : v.asInit = .ok (oi, li)) (hu : v.asUninit = .ok (o, c)) : v.asMutSlice = .ok (oi, li) := by
+  obtain ⟨h1, _, _⟩ := Buf.fresh_aligned hf hw.le hi hu
+  have h2 := (Buf.asInit_inside hi).2
+  simp only at h1 h2
+  subst h1
+  have := hw.le
+  simp only [Buf.asMutSlice, hi, hu]
+  rw [if_pos (by omega)]
+
+/-- **`copy_within(s..e, dest)`**: panics exactly outside `s ≤ e ≤ c ∧ dest + (e - s) ≤ c`; otherwise the bytes
+at `dest` are the old bytes of `s..e` (positions relative to the view's writable region), every other byte of the
+root is untouched, and no length changes -/
+theorem copy_within_law (v : Buf) (s e dest o c : Nat) (hu : v.asUninit = .ok (o, c)) :
+    (¬ (s ≤ e ∧ e ≤ c ∧ dest + (e - s) ≤ c) → v.copyWithin s e dest = .error .panic) ∧
+    (s ≤ e ∧ e ≤ c ∧ dest + (e - s) ≤ c → ∃ v', v.copyWithin s e dest = .ok v' ∧
+      (v'.getRoot.mem.drop (o + dest)).take (e - s) = (v.getRoot.mem.drop (o + s)).take (e - s) ∧
+      (∀ j, j < o + dest ∨ o + dest + (e - s) ≤ j → v'.getRoot.mem[j]? = v.getRoot.mem[j]?) ∧
+      v'.getRoot.len = v.getRoot.len ∧ v'.getRoot.cap = v.getRoot.cap) := by
+  have hin := (Buf.asUninit_inside hu).2
+  simp only [Root.cap] at hin
+  constructor
+  · intro hn
+    simp only [Buf.copyWithin, hu, hn, if_false]
+  · intro hr
+    simp only [Buf.copyWithin, hu, hr, and_self, if_true]
+    have hlen : ((v.getRoot.mem.drop (o + s)).take (e - s)).length = e - s := by
+      simp only [List.length_take, List.length_drop]; omega
+    have hfit : o + dest + ((v.getRoot.mem.drop (o + s)).take (e - s)).length ≤ v.getRoot.mem.length := by
+      rw [hlen]; omega
+    refine ⟨_, rfl, ?_, ?_, by simp, ?_⟩
+    · have := splice_read v.getRoot.mem (o + dest) _ hfit
+      rw [hlen] at this
+      simpa using this
+    · intro j hj
+      have := splice_other v.getRoot.mem (o + dest) _ hfit j (by rw [hlen]; exact hj)
+      simpa using this
+    · simp only [Buf.getRoot_write, Root.cap]
+      exact splice_length _ _ _ hfit
+
+/-- **`is_filled`** says `buf_len() == buf_capacity()`; after a fill of the whole writable region of a fresh
+view it is true -/
+theorem is_filled_iff (v : Buf) (oi li o c : Nat) (hi : v.asInit = .ok (oi, li)) (hu : v.asUninit = .ok (o, c)) :
+    v.isFilled = .ok (li == c) := by
+  simp [Buf.isFilled, hi, hu]
 
 /-! ## 5. Vectored buffers -/
 
